@@ -690,7 +690,7 @@ async fn run_inner(cfg: &Cfg, out: &mut Outcome) {
                             tlog.push("  stream -> End".into());
                             {
                                 let m = st.borrow();
-                                if m.dirty && !m.failed {
+                                if m.dirty && !m.failed && !m.fatal_failure {
                                     out.viol("C10", "server-ended-before-flush", format!("the request stream ended while {} written responses were still unflushed", m.unflushed()));
                                 }
                             }
